@@ -8,6 +8,7 @@
 //!   output: `<stall> <mandatory> none` | `<stall> <mandatory> lower upper first last size id,id,..` | `PANIC`
 //! `c20 consts`         the float tables as the same Rust expressions evaluate here (bits of the f64)
 //! `c20 ring DIR SLOTS WRITERS DEADLINE_MS`   writers in flight against a small wait-list ring (see `ring`)
+//! `c20 writers DIR DEADLINE_MS SCRIPT`  gated writers overlapping a rollover (see `writers`)
 //! `c20 store DIR FLAGS..`   one session of a real KeyValueStore with its real memtable thread and
 //!   K real compaction threads; ops on stdin:
 //!     put K V | del K | flushreq | flushwait MS K | flush | step | peek | dump | state | threads K | parked
@@ -153,6 +154,21 @@ fn dump_line(kvs: &KeyValueStore) -> String {
     line
 }
 
+/// `verif_parked` / `verif_state` take the compaction mutex / the store mutex.  A store that is
+/// stuck on a lock the watchdog does not know (one that is held across a wait) may hold them for
+/// ever; the watchdog must not hang with it: it asks from a helper thread and gives up after
+/// `ms` (the helper is left behind).
+fn parked_deadline(kvs: &Arc<KeyValueStore>, ms: u64) -> Option<(lsmtk::VerifParked, lsmtk::VerifState)> {
+    let k = Arc::clone(kvs);
+    let (tx, rx) = std::sync::mpsc::channel();
+    std::thread::spawn(move || {
+        let st = k.verif_state();
+        let p = k.verif_tree().verif_parked();
+        let _ = tx.send((p, st));
+    });
+    rx.recv_timeout(std::time::Duration::from_millis(ms)).ok()
+}
+
 fn store(args: &[String]) {
     let root = args[0].clone();
     let mut a: Vec<&str> = vec!["--path", &root];
@@ -235,7 +251,12 @@ fn store(args: &[String]) {
                     let t0 = std::time::Instant::now();
                     let mut verdict = "timeout";
                     while t0.elapsed().as_millis() < ms as u128 {
-                        let st = kvs.verif_state();
+                        // progress watchdog: a store lock that cannot be had for 5 s while a flush
+                        // is waiting means that no store thread can move (locks held across a wait)
+                        let Some((p, st)) = parked_deadline(kvs, 5000) else {
+                            verdict = "lockheld";
+                            break;
+                        };
                         if st.imm_trigger >= target && !st.has_imm && st.mem_seq_no > target {
                             verdict = "done";
                             break;
@@ -247,7 +268,6 @@ fn store(args: &[String]) {
                             verdict = "threadexit";
                             break;
                         }
-                        let p = kvs.verif_tree().verif_parked();
                         if p.stall >= 1 && p.compact == k - gone && p.ongoing == 0 {
                             verdict = "deadlock";
                             break;
@@ -326,12 +346,14 @@ fn store(args: &[String]) {
                     let k: usize = t[2].parse().unwrap();
                     let t0 = std::time::Instant::now();
                     let mut verdict = "timeout";
-                    let mut last = kvs.verif_tree().verif_parked();
+                    let mut last = lsmtk::VerifParked { stall: 0, compact: 0, ongoing: 0, should_stall: false };
                     while t0.elapsed().as_millis() < ms as u128 {
                         // the store state is read first: a flush that starts after this point
                         // cannot have parked anybody in the snapshot taken next
-                        let st = kvs.verif_state();
-                        let p = kvs.verif_tree().verif_parked();
+                        let Some((p, st)) = parked_deadline(kvs, 5000) else {
+                            verdict = "lockheld";
+                            break;
+                        };
                         let flush_idle = !st.has_imm && st.imm_trigger < st.mem_seq_no;
                         last = p.clone();
                         let gone = cexited2.load(Ordering::SeqCst);
@@ -502,6 +524,115 @@ fn ring(args: &[String]) {
     std::process::exit(0);
 }
 
+/// `c20 writers DIR DEADLINE_MS SCRIPT`: concurrent client writers against the real flush thread,
+/// forced into a chosen interleaving with the kvs gates (hook lsmtk::kvs::verif_events).  SCRIPT is
+/// a ';'-separated controller program:
+///   arm:<point>:<tid>   start:<tid> (one put by a new thread <tid>)   parked:<point>:<tid>
+///   release:<point>:<tid>   flushreq   sleep:<ms>   rolled (wait until the requested rollover happened)
+/// After the script every started writer must have returned and a requested flush must have been
+/// ingested within the deadline; nothing here can stall (default thresholds, a handful of files).
+fn writers(args: &[String]) {
+    let root = args[0].clone();
+    let deadline: u64 = args[1].parse().unwrap();
+    let script = args[2].clone();
+    let a: Vec<&str> = vec!["--path", &root];
+    let o = LsmtkOptions::from_arguments_relaxed("c20", &a).0;
+    let kvs = match std::panic::catch_unwind(|| KeyValueStore::open(o)) {
+        Ok(Ok(k)) => Arc::new(k),
+        _ => {
+            println!("WRITERS openfailed");
+            std::process::exit(0);
+        }
+    };
+    {
+        let k2 = Arc::clone(&kvs);
+        std::thread::spawn(move || {
+            KeyValueStore::verif_set_tid(1000);
+            let _ = std::panic::catch_unwind(std::panic::AssertUnwindSafe(|| k2.memtable_thread()));
+            println!("THREAD memtable returned");
+        });
+    }
+    let mut started: Vec<(u64, Arc<AtomicUsize>)> = vec![];
+    let mut flush_target: Option<u64> = None;
+    let mut notes: Vec<String> = vec![];
+    for cmd in script.split(';') {
+        let t: Vec<&str> = cmd.split(':').collect();
+        match t[0] {
+            "arm" => KeyValueStore::verif_gate_arm(t[1], t[2].parse().unwrap(), 0),
+            "start" => {
+                let tid: u64 = t[1].parse().unwrap();
+                let done = Arc::new(AtomicUsize::new(0));
+                started.push((tid, Arc::clone(&done)));
+                let k2 = Arc::clone(&kvs);
+                std::thread::spawn(move || {
+                    KeyValueStore::verif_set_tid(tid);
+                    let key = format!("k{tid:04}");
+                    let r = std::panic::catch_unwind(std::panic::AssertUnwindSafe(|| k2.put(key.as_bytes(), b"value")));
+                    done.store(if matches!(r, Ok(Ok(()))) { 1 } else { 2 }, Ordering::SeqCst);
+                });
+            }
+            "parked" => {
+                if !KeyValueStore::verif_gate_wait_parked(t[1], t[2].parse().unwrap(), std::time::Duration::from_millis(deadline)) {
+                    notes.push(format!("notparked:{}:{}", t[1], t[2]));
+                }
+            }
+            "release" => KeyValueStore::verif_gate_release(t[1], t[2].parse().unwrap()),
+            "flushreq" => flush_target = Some(kvs.verif_request_flush()),
+            "rolled" => {
+                // the flush thread swapped the memtables (and linked into the wait list in the
+                // same critical section)
+                let t0 = std::time::Instant::now();
+                while t0.elapsed().as_millis() < deadline as u128 {
+                    if let Some(target) = flush_target {
+                        if kvs.verif_state().mem_seq_no > target {
+                            break;
+                        }
+                    }
+                    std::thread::sleep(std::time::Duration::from_millis(1));
+                }
+            }
+            "sleep" => std::thread::sleep(std::time::Duration::from_millis(t[1].parse().unwrap())),
+            _ => notes.push(format!("badcmd:{cmd}")),
+        }
+    }
+    KeyValueStore::verif_gate_release_all();
+    let t0 = std::time::Instant::now();
+    let flushed = |kvs: &KeyValueStore| match flush_target {
+        None => true,
+        Some(target) => {
+            let st = kvs.verif_state();
+            st.imm_trigger >= target && !st.has_imm && st.mem_seq_no > target
+        }
+    };
+    while t0.elapsed().as_millis() < deadline as u128 {
+        if started.iter().all(|(_, d)| d.load(Ordering::SeqCst) != 0) && flushed(&kvs) {
+            break;
+        }
+        std::thread::sleep(std::time::Duration::from_millis(2));
+    }
+    let stuck: Vec<String> = started.iter().filter(|(_, d)| d.load(Ordering::SeqCst) == 0).map(|(t, _)| t.to_string()).collect();
+    let failed: Vec<String> = started.iter().filter(|(_, d)| d.load(Ordering::SeqCst) == 2).map(|(t, _)| t.to_string()).collect();
+    // the tree's own view, read with a deadline (a stuck store may hold its locks)
+    let k3 = Arc::clone(&kvs);
+    let (tx, rx) = std::sync::mpsc::channel();
+    std::thread::spawn(move || {
+        let p = k3.verif_tree().verif_parked();
+        let _ = tx.send(format!("stall={} should_stall={}", p.stall, p.should_stall as u8));
+    });
+    let tree = rx.recv_timeout(std::time::Duration::from_millis(1000)).unwrap_or_else(|_| "stall=? should_stall=?".to_string());
+    println!(
+        "WRITERS started={} stuck=[{}] failed=[{}] flushed={} {} notes=[{}] verdict={}",
+        started.len(),
+        stuck.join(","),
+        failed.join(","),
+        flushed(&kvs) as u8,
+        tree,
+        notes.join(","),
+        if stuck.is_empty() && failed.is_empty() && flushed(&kvs) { "allreturned" } else { "stuck" }
+    );
+    std::process::exit(0);
+}
+
 fn main() {
     let args: Vec<String> = std::env::args().collect();
     hx::quiet_panics();
@@ -524,6 +655,7 @@ fn main() {
         Some("consts") => consts(),
         Some("store") => store(&args[2..]),
         Some("ring") => ring(&args[2..]),
+        Some("writers") => writers(&args[2..]),
         _ => {
             eprintln!("usage: c20 sel | consts | store DIR FLAGS..");
             std::process::exit(2);
